@@ -9,11 +9,13 @@ CONSTANTS
   MaxSends = @@MAXS@@
   MaxSlow = 7
   Lims = {"none", "tiny", "edge", "large"}
-  Classes = {"one", "Bm1", "B", "Bp1", "big"}
+  Classes = @@CLS@@
   Faults = TRUE
   Replace = @@REPL@@
   ExtCloseOn = TRUE
   DevLimiter = TRUE
+  DevNilFwd = TRUE
+  DevStaleSrc = TRUE
   Gen = FALSE
   Emit = FALSE
 INIT Init
